@@ -99,6 +99,26 @@ def gen_quads(rng, tier, count):
             g = relabel(rng, X, kg)
         flag = rng.random() < 0.6
         out.append(_mk(Y, X, f, g, flag, fam, kf, kg))
+    # identical pairs of every shape, BOTH flags: recoded with the same map (stay identical) and with two maps (stop being so)
+    for shape in ("alldistinct", "alldistinct-sparse", "constant", "singleton-heavy", "zipf"):
+        for flag in (True, False):
+            n = rng.randint(2, 80)
+            if shape.startswith("alldistinct"):
+                V = list(range(n))
+                rng.shuffle(V)
+                if shape.endswith("sparse"):
+                    V = c01._recode_sparse(rng, V)
+            elif shape == "constant":
+                V = [rng.randrange(40)] * n
+            elif shape == "singleton-heavy":
+                V = [i if rng.random() < 0.7 else 0 for i in range(n)]
+            else:
+                V = c01._zipf(rng, n, rng.randint(2, 12))
+            kf = rng.choice(KINDS[1:])
+            f = relabel(rng, V, kf)
+            out.append(_mk(V, list(V), f, f, flag, "identical-" + shape, kf, kf))
+            kg = rng.choice(KINDS[1:])
+            out.append(_mk(V, list(V), f, relabel(rng, V, kg), flag, "identical-" + shape, kf, kg))
     return out
 
 
